@@ -306,7 +306,7 @@ func Run(r *evid.Run) {
 	}
 	r.Sample(map[string]any{"initial": "node3-expired", "programs": [][]string{{"lease(long)", "return"}, {"lease(long)"}}, "points": "every store Get/Set/Delete + lag choice per read"})
 	r.Assume("dragonboat contract modelled by the adapter: a proposal is committed when appended; its result is what the deterministic LFSM computes at that index; a stale read sees at least the node's own completed writes and any later prefix")
-	r.Assume("lease durations are +1h (long) and -1h (already expired), so no verdict depends on wall-clock timing")
+	r.Assume("lease durations are +1h (long) and -1h (already expired) in the scheduler part, so no verdict depends on wall-clock timing; the expiry boundary itself is decided in the worker part under a fake clock")
 	r.Assume("traces_validated_against_impl counts executions: every step of every execution runs the real Manager and LFSM code (the Raft host is the modelled part; its adapter is conformance-checked under C13)")
 }
 
@@ -324,6 +324,7 @@ func mergeWorkerPart(r *evid.Run) {
 		Events     int64  `json:"events"`
 		Observed   int64  `json:"observations_with_lease_flag_set"`
 		Takeovers  int64  `json:"paths_with_a_takeover"`
+		Boundary   int64  `json:"lease_boundary_cases"`
 		Rule       string `json:"rule"`
 		Distinct   int    `json:"distinct_outcomes"`
 		Violations []struct {
@@ -341,6 +342,7 @@ func mergeWorkerPart(r *evid.Run) {
 	r.Extra("worker_part_events", res.Events)
 	r.Extra("worker_part_observations_with_lease_flag_set", res.Observed)
 	r.Extra("worker_part_paths_with_a_takeover", res.Takeovers)
+	r.Extra("worker_part_lease_boundary_cases", res.Boundary)
 	r.Extra("worker_part_distinct_outcomes", res.Distinct)
 	r.Transitions.Add(res.Events)
 	r.Validated.Add(res.Paths)
